@@ -190,20 +190,28 @@ def table_get_slices(ctx):
         return
     want_slice = T.slice_(V('lo'), V('hi'))
     n = 0
+
+    def arms(v):
+        # the decode alternatives of one store written as a conditional value (e.g. through a helper that returns per case)
+        return arms(v[2]) + arms(v[3]) if v[0] == 'ite' else [v]
+    n_arms = 0
     for e in sts:
         field = e.key
         L = fa.loops[e.loops[-1]]
         # every dataset read in the stored value must be dset[lo:hi] with dset = grp[field]
         reads = [x for x in T.walk(e.value) if x[0] == 'sub' and x[1] == T.sub(V('grp'), field)]
         n += 1
+        alts = [a for a in arms(e.value) if a != T.NONE]     # (the implicit fall-through of a helper whose cases all return)
+        n_arms += len(alts)
         br = ' & '.join(('' if p else 'not ') + T.show(c) for c, p in e.guards) or 'always'
-        ok = bool(reads) and all(x[2] == want_slice for x in reads)
+        ok = bool(reads) and all(x[2] == want_slice for x in reads) \
+            and all(any(x[0] == 'sub' and x[1] == T.sub(V('grp'), field) for x in T.walk(a)) for a in alts)
         ctx.check(ok, R, f'branch#{n}', ctx.where(fa, e), found=[T.show(x) for x in reads] or T.show(e.value),
                   expected='grp[field][lo:hi]', reason=f'decode branch ({br[:80]}) must read the requested row range')
         okf = field[0] == 'elem' and field[2] == L.id
         ctx.check(okf, R, f'branch#{n}.key', ctx.where(fa, e), found=field, expected='data[field] for the loop field')
-    if n < 3:
-        ctx.unrec(R, 'branches', ctx.where(fa), found=n, reason='expected the enum, bytes and plain decode branches')
+    if n_arms < 3:
+        ctx.unrec(R, 'branches', ctx.where(fa), found=n_arms, reason='expected the enum, bytes and plain decode branches')
     # index = arange(lo, lo + len(first column))
     # (found through its consumer - the index= argument of the frame / series that is returned -
     # not through the name of a local variable)
@@ -607,7 +615,11 @@ def get_binsize_all_bins(ctx):
             ctx.check(bool(oks), R, f'return#{k}.direction', ctx.where(fa, r), found=c,
                       expected='last bin width <= common width', reason='the last bin may be shorter, never longer')
         # the value returned is the common width of the non-last bins
-        vals = [x for x in T.walk(r.value) if x[0] == 'call' and x[1] == G('next')]
+        # ... taken out of the one-element collection in any of the usual ways: next(iter(S)), (b,) = S, S.pop(),
+        # list(S)[0], min(S) / max(S)
+        vals = [x for x in T.walk(r.value)
+                if (x[0] == 'call' and (x[1] in (G('next'), G('min'), G('max')) or (x[1][0] == 'attr' and x[1][2] == 'pop')))
+                or (x[0] == 'sub' and x[2] in (T.C(0), T.C(-1)))]
         ctx.check(bool(vals), R, f'return#{k}.value', ctx.where(fa, r), found=r.value, expected='the single common width')
         truth = [(c if p else T.not_(c)) for c, p in r.guards]
         one = [c for c in truth if c[0] == 'cmp' and c[1] == '==' and C(1) in (c[2], c[3])
